@@ -161,3 +161,74 @@ pub proof fn lemma_next_wf(s: Seq<FifoEntry>, i: int)
     ensures next_marker(s, i) matches Some(p) ==> wf_marker(p)
     decreases s.len() - i
 { if 0 <= i < s.len() { assert(entry_wf(s[i])); lemma_next_wf(s, i + 1); } }
+
+// ---- the rows of a hardware-model stream carry the true time or none --------------------------------------------------------
+pub open spec fn count_markers(s: Seq<FifoEntry>, i: int) -> nat decreases i {
+    if i <= 0 || i > s.len() { 0 } else { count_markers(s, i - 1) + if s[i - 1] is WrapAroundMarker { 1nat } else { 0nat } }
+}
+// s is what the FIFO of a faithful Chronobox holds from its marker number k0 on: the j-th marker of s is hw_marker(k0 + j), and the
+// timestamp entry at position i records the edge that happened at tick ticks[i]
+pub open spec fn hw_stream(s: Seq<FifoEntry>, ticks: Seq<nat>, k0: nat) -> bool {
+    &&& ticks.len() == s.len()
+    &&& k0 + count_markers(s, s.len() as int) < 0x800000
+    &&& forall|i: int| 0 <= i < s.len() ==> match #[trigger] s[i] {
+            FifoEntry::WrapAroundMarker(m) => m == hw_marker(k0 + count_markers(s, i)),
+            FifoEntry::TimestampCounter(t) => t.timestamp == hw_ts(ticks[i]),
+        }
+}
+pub proof fn lemma_count_mono(s: Seq<FifoEntry>, i: int, j: int)
+    requires 0 <= i <= j <= s.len()
+    ensures count_markers(s, i) <= count_markers(s, j)
+    decreases j - i
+{ if i < j { lemma_count_mono(s, i, j - 1); } }
+pub proof fn lemma_prev_is_hw(s: Seq<FifoEntry>, ticks: Seq<nat>, k0: nat, i: int)
+    requires hw_stream(s, ticks, k0), 0 <= i <= s.len()
+    ensures
+        count_markers(s, i) == 0 ==> prev_marker(s, i).is_none(),
+        count_markers(s, i) > 0 ==> prev_marker(s, i) == Some(hw_marker((k0 + count_markers(s, i) - 1) as nat)),
+    decreases i
+{
+    if i > 0 {
+        lemma_prev_is_hw(s, ticks, k0, i - 1);
+        let _ = s[i - 1];
+    }
+}
+pub proof fn lemma_next_is_hw(s: Seq<FifoEntry>, ticks: Seq<nat>, k0: nat, i: int)
+    requires hw_stream(s, ticks, k0), 0 <= i <= s.len()
+    ensures next_marker(s, i) matches Some(m) ==> m == hw_marker(k0 + count_markers(s, i))
+    decreases s.len() - i
+{
+    if i < s.len() {
+        lemma_next_is_hw(s, ticks, k0, i + 1);
+        let _ = s[i];
+    }
+}
+// a row computed as row_ok says, for an edge that reached the FIFO between the two markers of its own half period: its time is the
+// tick of the edge (edge bit cleared) -- and for an edge that reached the FIFO one half period late or early: no time at all
+pub proof fn lemma_hw_rows(s: Seq<FifoEntry>, ticks: Seq<nat>, k0: nat, i: int, r: Row, board: String, j: nat)
+    requires hw_stream(s, ticks, k0), row_ok(r, s, i, board), prev_marker(s, i).is_some(), next_marker(s, i).is_some(),
+    ensures
+        ({ let k = (k0 + count_markers(s, i) - 1) as nat;
+           &&& ((k + 1) * 0x800000 <= ticks[i] < (k + 2) * 0x800000 ==> (r.chronobox_time matches Some(x) && ticks_of(x) as int == ticks[i] - ticks[i] % 2))
+           &&& ((j + 1) * 0x800000 <= ticks[i] < (j + 2) * 0x800000 && j % 2 != k % 2 ==> r.chronobox_time.is_none()) }),
+{
+    lemma_prev_is_hw(s, ticks, k0, i);
+    lemma_next_is_hw(s, ticks, k0, i);
+    lemma_count_mono(s, i, s.len() as int);
+    let c = count_markers(s, i);
+    assert(c > 0);
+    let k = (k0 + c - 1) as nat;
+    let t = ticks[i];
+    let tsc = s[i]->TimestampCounter_0;
+    assert(tsc.timestamp == hw_ts(t));
+    assert(prev_marker(s, i) == Some(hw_marker(k)));
+    assert(next_marker(s, i) == Some(hw_marker(k + 1)));
+    if (k + 1) * 0x800000 <= t < (k + 2) * 0x800000 {
+        lemma_hw_true_time(t, k, tsc.channel, tsc.edge);
+        assert(tsc == hw_tsc(t, tsc.channel, tsc.edge));
+    }
+    if (j + 1) * 0x800000 <= t < (j + 2) * 0x800000 && j % 2 != k % 2 {
+        lemma_hw_wrong_side(t, j, k, tsc.channel, tsc.edge);
+        assert(tsc == hw_tsc(t, tsc.channel, tsc.edge));
+    }
+}
